@@ -28,9 +28,13 @@ EXPLANATION = (
 )
 ASSUMPTIONS = ["redb range iteration order = tuple key order", "tables identified by type"]
 
+
 IK = "<store::util::IndexKind as std::convert::From<&store::Query>>::from"
 QN = "store::fs::query::QueryIterator::new"
 QNEXT = "<store::fs::query::QueryIterator as std::iter::Iterator>::next"
+
+
+EXPLANATION += ' (R11) = C16.R2 for the records table and the key-ordered index. (R12) the point lookup evaluated (row absent / live / deletion marker / failing read x include-deleted; callers read the records table and forward their own arguments). (R13) the public query builder evaluated: every method sets exactly the field it names to exactly its argument; the conversion into Query copies every field.'
 
 
 def _names(f, adt):
